@@ -41,10 +41,12 @@ EXT_SRC = [
     "0 - 9223372036854775808", "1000000000000000000", "2958466",
     "0 - 693594", "date('99991231')", "date('19000101')",
     "date('20200101') + 0.5",
+    "1" + "0" * 400,                 # an int beyond the range of a double
+    "0 - 1" + "0" * 400,
 ]
-EXT_KIND = ["decimal"] * 6 + ["int"] * 5 + ["date"] * 3
+EXT_KIND = ["decimal"] * 6 + ["int"] * 5 + ["date"] * 3 + ["int"] * 2
 EXT_DECIMAL = set(range(N, N + 6))
-EXT_BIGINT = set(range(N + 6, N + 11))
+EXT_BIGINT = set(range(N + 6, N + 11)) | {N + 14, N + 15}
 POOL_SRC = POOL_SRC + EXT_SRC
 POOL_KIND = POOL_KIND + EXT_KIND
 N_EXT = len(POOL_SRC)
